@@ -78,6 +78,72 @@ func rawToken(params []json.RawMessage) string {
 	return "0x" + hex.EncodeToString(h.Sum(nil))
 }
 
+// plainIntText: optional sign, then decimal digits without a leading zero, or 0x / 0X and hex digits.
+func plainIntText(s string) bool {
+	if len(s) > 0 && (s[0] == '+' || s[0] == '-') {
+		s = s[1:]
+	}
+	if len(s) > 2 && s[0] == '0' && (s[1] == 'x' || s[1] == 'X') {
+		for _, c := range s[2:] {
+			if !(c >= '0' && c <= '9' || c >= 'a' && c <= 'f' || c >= 'A' && c <= 'F') {
+				return false
+			}
+		}
+		return true
+	}
+	if s == "" || (len(s) > 1 && s[0] == '0') {
+		return false
+	}
+	for _, c := range s {
+		if c < '0' || c > '9' {
+			return false
+		}
+	}
+	return true
+}
+
+// outsideIntRegion: the reply carries a `result` (number or string) that looks numeric but is not a
+// plain decimal / 0x-hex integer text.
+func outsideIntRegion(rep proxykit.Reply) bool {
+	var res json.RawMessage
+	switch rep.Kind {
+	case proxykit.ReplyResult:
+		res = rep.Result
+	case proxykit.ReplyRawBody, proxykit.ReplyHTTPError:
+		var o map[string]json.RawMessage
+		if json.Unmarshal(rep.Body, &o) != nil {
+			return false
+		}
+		for k, v := range o {
+			if strings.EqualFold(k, "result") && numericLooking(v) {
+				return true
+			}
+		}
+		return false
+	default:
+		return false
+	}
+	return numericLooking(res)
+}
+
+func numericLooking(res json.RawMessage) bool {
+	t := strings.TrimSpace(string(res))
+	if t == "" {
+		return false
+	}
+	if t[0] == '"' {
+		var s string
+		if json.Unmarshal(res, &s) != nil {
+			return false
+		}
+		t = s
+	}
+	if t == "" || !strings.ContainsRune("0123456789+-.", rune(t[0])) {
+		return false
+	}
+	return !plainIntText(t)
+}
+
 func result(j string) proxykit.Reply {
 	return proxykit.Reply{Kind: proxykit.ReplyResult, Result: json.RawMessage(j)}
 }
@@ -643,6 +709,15 @@ func (g *gen) sendTxFrom(rl *rules, thorough bool, force *fromSpec) member {
 			t = "count:" + t
 		default:
 			rep, t = result(fmt.Sprintf(`"0x%x"`, g.r.Intn(100000))), "count:hex"
+		}
+		// The run's parse_int instance (Rpc/RunC09.v parse_int_run) covers plain decimal and 0x-hex texts
+		// only; exponent / fraction / octal / underscore notations that BigIntegerFromString also accepts
+		// ("1E+2" = 100) are property C19's.  A nonce answer outside that region would make the model refuse
+		// what the proxy rightly signs (false alarm on seed 5, round 3): take another answer.
+		for tries := 0; tries < 50 && outsideIntRegion(rep); tries++ {
+			g.tag("count:regenerated-outside-parse-int-region")
+			rep, t = g.reply()
+			t = "count:" + t
 		}
 		if old, ok := rl.count[addr]; ok {
 			rep = old
